@@ -16,7 +16,7 @@ AUXF = {"Framer": ["main", "actives", "active", "done", "human", "status", "desi
 NOT_OWN = "forall(lambda m: implies(0 <= m and m < len(self.auxes), self.auxes[m] is not self.framer))"
 OWN_AUX = ("forall(lambda m: implies(0 <= m and m < len(self.auxes), forall(lambda j: implies(0 <= j and "
            "j < len(self.auxes[m].actives), self.auxes[m].actives[j].framer is self.auxes[m]))))")
-AUX_MOD = havoc_all_but(AUXF, keep=["self.framer"], wf=[ACTIVES_OWNED])
+AUX_MOD = framers_may_change(keep=["self.framer"])      # .done of any framer may be set True by a `done` act
 REG.inline_ok.add("Frame.getUnder")
 
 # call-site views of the auxiliary framer's whole-outline operations (their bodies: c06_bracketing.py)
@@ -71,7 +71,7 @@ contract(FF, "Frame.exit", "C09", params=dict(self=Ref("Frame")), assumes=AUX_RE
                         % (NA, NA)])
 
 for _m, _acts in (("renter", "renacts"), ("rexit", "rexacts")):
-    contract(FF, "Frame." + _m, "C09", params=dict(self=Ref("Frame")), modifies=[],
+    contract(FF, "Frame." + _m, "C09", params=dict(self=Ref("Frame")), modifies=[acts_may_complete],
              loops={0: dict(inv=["ct_len() == _i",
                                  "forall(lambda j: implies(0 <= j and j < _i, ct_is(j, 'act', self.%s[j])))" % _acts])},
              local_ensures=["ct_len() == len(self.%s)" % _acts,
